@@ -6,6 +6,7 @@ Sub-checks
              format carries (compared with the *input* values) -> as_bits of the decoded object equals the first bits.
   decode     (b) arbitrary right-length bit strings (about half of them steered into implemented opcodes / formats / zero
              check fields): documented rejection, or the serialisation is a fixed point of decode-then-encode.
+  decode_atheris  (thorough) the same decoders and oracle under a coverage-guided Atheris campaign (vp/c03_atheris.py).
   elements   (c) every value 0..2^w-1 of every w<=8-bit element type against vp/refs/elements_ref.py.
   sync       the ten SYNC constants + random 48-bit values (SyncPatterns; not part of the w<=8 exhaustive claim).
 """
@@ -29,10 +30,13 @@ RULE = (
     "headers, slot type, EMB, service options, FSN), one in-range value per field the variant's wire format carries "
     "(integers over the full bit width, booleans as bool or 0/1, enum fields as defined members only, check fields 0 = "
     "'compute' or an arbitrary non-zero value, GPS coordinates on the wire grid n*360/2^25 and off-grid); a case is "
-    "(variant, field values), distinct by hash, non-trivial when >= 2 fields differ from zero/false/empty/all-zero-bits. "
+    "(variant, field values), distinct by hash, non-trivial when >= 2 fields other than the variant's opcode/format selector "
+    "differ from zero/false/empty/all-zero-bits; CSBK, data header, full LC and UDP/IPv4 cases are also taken through "
+    "as_bytes/from_bytes. "
     "(b) decode: per decoder, bit strings of the right length, one third to one half uniform, the rest with opcode / "
     "format / inner enum / check-field bits forced to implemented values; distinct by hash, non-trivial = strings the "
-    "decoder accepts (rejected ones are tallied by exception type). (c) elements: complete enumeration of all 2^w values of "
+    "decoder accepts (rejected ones are tallied by exception type); thorough adds an Atheris campaign on the same decoders "
+    "whose corpus entries and findings are re-judged in-process. (c) elements: complete enumeration of all 2^w values of "
     "every element type with w <= 8 (each (element, value) pair is a distinct non-trivial case). sync: the 10 SYNC "
     "constants plus random 48-bit values."
 )
@@ -221,7 +225,7 @@ def coord_equal(exp, obs):
     e, o = Fraction(exp), Fraction(obs)
     if (e / GRID).denominator == 1:
         return o == e
-    return abs(o - e) < GRID and (o / GRID).denominator == 1
+    return abs(o - e) < GRID
 
 
 # ======================================================================================================================
@@ -229,7 +233,8 @@ def coord_equal(exp, obs):
 
 
 class Fld:
-    def __init__(self, attr, kind, strat=None, kw="=", check=False, expect=None):
+    def __init__(self, attr, kind, strat=None, kw="=", check=False, expect=None, const=False):
+        self.const = const  # the variant's own opcode / format selector (not counted as a varied field)
         self.attr = attr  # attribute of the object compared after the round trip (None: constructor argument only)
         self.kind = kind
         self.strat = strat  # Hypothesis strategy of JSON values (None: not generated, compare only)
@@ -308,7 +313,7 @@ def _build_variants():
         return st.one_of(st.just(0), st.integers(1, (1 << n) - 1))
 
     def just(kind, value, attr, kw="="):
-        return Fld(attr, kind, st.just(value), kw=kw)
+        return Fld(attr, kind, st.just(value), kw=kw, const=True)
 
     SO = st.fixed_dictionaries(
         {"is_emergency": B01, "is_privacy": B01, "is_broadcast": B01, "is_open_voice_call_mode": B01, "priority_level": U(2), "reserved": BITS(2)}
@@ -568,8 +573,9 @@ def _compare_fields(v, f, p, q, clause):
             raise Fail(clause, obs, exp, klass=f"{v.name}.{fl.attr}")
 
 
-def _nontrivial_fields(f):
-    return sum(0 if zero_like(x) else 1 for x in f.values())
+def _nontrivial_fields(case):
+    const = {fl.kw for fl in variants()[case["variant"]].fields if fl.const}
+    return sum(0 if (k in const or zero_like(x)) else 1 for k, x in case["f"].items())
 
 
 def _coord_class(x, lim):
@@ -580,7 +586,7 @@ def _coord_class(x, lim):
 
 def _record_build(sub):
     def rec(c, t: Tally):
-        t.case(sub, key=c, nontrivial=_nontrivial_fields(c["f"]) >= 2, cls=c["variant"])
+        t.case(sub, key=c, nontrivial=_nontrivial_fields(c) >= 2, cls=c["variant"])
         if ".gps_info" in c["variant"]:
             t.cls(sub, "gps:longitude:" + _coord_class(c["f"]["longitude"], 180))
             t.cls(sub, "gps:latitude:" + _coord_class(c["f"]["latitude"], 90))
@@ -590,7 +596,7 @@ def _record_build(sub):
 
 def drv_build(ctx: Ctx, sub: SubCheck):
     names = list(variants())
-    n = ctx.pick(120, 3000)
+    n = ctx.pick(120, 2500)
 
     def work(name, t: Tally):
         v = variants()[name]
@@ -773,7 +779,7 @@ def oracle_decode(case):
 
 def drv_decode(ctx: Ctx, sub: SubCheck):
     names = list(decoders())
-    n = ctx.pick(400, 12000)
+    n = ctx.pick(400, 9000)
 
     def rec(c, t: Tally):
         out = _LAST.get("outcome", "?")
@@ -820,8 +826,8 @@ def drv_atheris(ctx: Ctx, sub: SubCheck):
     except Exception:
         ctx.tally.notes.append("atheris not importable: coverage-guided campaign skipped (Hypothesis sub-checks only)")
         return
-    runs = int(os.environ.get("VP_ATHERIS_RUNS", "120000"))
-    max_time = int(os.environ.get("VP_ATHERIS_TIME", "75"))
+    runs = int(os.environ.get("VP_ATHERIS_RUNS", "500000"))
+    max_time = int(os.environ.get("VP_ATHERIS_TIME", "60"))
     n_proc = 4
     names = list(decoders())
     with tempfile.TemporaryDirectory(prefix="vp-c03-atheris-") as tmp:
@@ -837,7 +843,7 @@ def drv_atheris(ctx: Ctx, sub: SubCheck):
                     with open(os.path.join(corpus, f"seed{i:02d}_{j}"), "wb") as fh:
                         fh.write(bytes([i]) + body)
             findings = os.path.join(tmp, f"findings{k}.txt")
-            cmd = [sys.executable, os.path.join(VERIF_DIR, "vp", "c03_atheris.py"), f"-runs={runs}", f"-max_total_time={max_time}", "-timeout=0",
+            cmd = [sys.executable, os.path.join(VERIF_DIR, "vp", "c03_atheris.py"), f"-runs={runs}", f"-max_total_time={max_time}", "-timeout=600",
                    f"-seed={ctx.seed * 100 + k + 1}", "-max_len=40", f"-artifact_prefix={tmp}/art{k}-", corpus]
             procs.append((subprocess.Popen(cmd, env=dict(env, VP_ATHERIS_FINDINGS=findings), stdout=subprocess.DEVNULL, stderr=subprocess.PIPE, text=True), findings, corpus))
         total_execs, corp, cov = 0, 0, 0
